@@ -94,6 +94,7 @@ static int call_catf(a_str *o, int f)
 static long last_reqs, n_fault_runs, n_fault_edges;
 static FILE *fault_out;
 
+static int fault_noretry;
 static int fault_edge(int const *v, long single, long from)
 {
     int op = v[1], a1 = v[2], mem = v[5], n = v[7], n2 = v[8], nblk = v[9];
@@ -144,6 +145,12 @@ static int fault_edge(int const *v, long single, long from)
     int after = (readable && pnum < pmem) ? (unsigned char)o.ptr_[pnum] : -1;
     fprintf(f, ",\"fail\":{\"ret_fail\":%d,\"num\":%d,\"mem\":%d,\"siz\":1,\"after\":%d,\"seq\":", ret_fail, readable ? pnum : -1, pmem, after);
     put_bytes(f, pb, readable ? pnum : 0);
+    if (fault_noretry)
+    {
+        /* the string is destroyed right after the failed call */
+        fputs("},\"noretry\":1,\"retry\":{\"ok\":0", f);
+        goto destroy_it;
+    }
     /* retry with a healthy allocator */
     ret = 0; ex = NULL; ngot = 0;
     f_begin(0, 0);
@@ -162,6 +169,7 @@ static int fault_edge(int const *v, long single, long from)
     for (int i = 0; readable && i < pnum; ++i) { pb[i] = (unsigned char)o.ptr_[i]; }
     fprintf(f, "},\"retry\":{\"ok\":%d,\"num\":%d,\"mem\":%d,\"seq\":", retry_ok, readable ? pnum : -1, pmem);
     put_bytes(f, pb, readable ? pnum : 0);
+destroy_it:
     fputs("},\"expected\":", f);
     put_ints(f, s2, n2);
     a_str_dtor(&o);
@@ -459,6 +467,9 @@ int main(int argc, char **argv)
                 if ((rc = fault_edge(v, k, 0)) != 0) { return rc; }
                 if (k < R && (rc = fault_edge(v, 0, k)) != 0) { return rc; }
             }
+            fault_noretry = 1;
+            if ((rc = fault_edge(v, 0, 1)) != 0) { return rc; }
+            fault_noretry = 0;
         }
     }
     for (int i = 0; i < nb; ++i) { fclose(fo[i]); }
